@@ -55,3 +55,16 @@ def install(world):
     M['re.sub'] = m_re_sub
     M['re.findall'] = m_re_findall
     M['time.time'] = m_time_time
+
+
+def m_asctime(it, args, kwargs):
+    return it.fresh_str('asctime')
+
+
+_orig_install = install
+
+
+def install(world):     # noqa
+    _orig_install(world)
+    world.models['time.asctime'] = m_asctime
+    world.models['sys.version'] = None
